@@ -5,6 +5,10 @@ import (
 	"context"
 	"errors"
 	"fmt"
+	"github.com/transparency-dev/witness/internal/persistence/inmemory"
+	"github.com/transparency-dev/witness/verifmc/uni"
+	"golang.org/x/mod/sumdb/note"
+	"net"
 	"net/http"
 	"net/url"
 	"os"
@@ -184,8 +188,60 @@ func c17(tier string) int {
 		}
 		run.Set("entries["+fname+"]", len(cfg.Logs))
 	}
+	// The binary's own start-up path: omniwitness.Main over the embedded
+	// (shipped) configuration, in-memory storage, polling off (no network),
+	// a loopback listener: it must get as far as serving the log list.
+	c17MainStarts(run)
 	run.Set("evaluations", evals)
 	run.Set("exhaustive", true)
-	run.Set("rule", "every entry of omniwitness/logs.yaml (embedded ConfigLogs, checked equal to the working-tree file) and omniwitness/logs_test.yaml, through the functions Main uses: yaml.Unmarshal into LogConfig, config.NewLog (verifier name/hash vs key string), ID uniqueness, feeder enum known, AsLogMap, then the entry's feeder is started once (interval 0) with an HTTP transport that fails every request - it must reach the network (first request to the configured host, to a resource below the configured URL taken as a directory, and not to a resource another non-Rekor entry starts from) and return a transport error without panicking; witness map IDs == feeder/bastion list IDs. distinct_nontrivial = distinct entries")
+	run.Set("rule", "every entry of omniwitness/logs.yaml (embedded ConfigLogs, checked equal to the working-tree file) and omniwitness/logs_test.yaml, through the functions Main uses: yaml.Unmarshal into LogConfig, config.NewLog (verifier name/hash vs key string), ID uniqueness, feeder enum known, AsLogMap, then the entry's feeder is started once (interval 0) with an HTTP transport that fails every request - it must reach the network (first request to the configured host, to a resource below the configured URL taken as a directory, and not to a resource another non-Rekor entry starts from) and return a transport error without panicking; witness map IDs == feeder/bastion list IDs; finally omniwitness.Main itself is started over the embedded configuration (in-memory storage, polling off) and must come up serving. distinct_nontrivial = distinct entries")
 	return run.Finish()
+}
+
+// c17MainStarts runs omniwitness.Main on the shipped configuration and waits
+// for its HTTP endpoint to answer; Main returning before that is a start-up
+// failure on the shipped configuration.
+func c17MainStarts(run *ev.Run) {
+	u := uni.New(ev.Seed(), 2, nil)
+	ln, err := net.Listen("tcp", "127.0.0.1:0")
+	if err != nil {
+		ev.Internal("C17: listen: %v", err)
+	}
+	ctx, cancel := context.WithCancel(context.Background())
+	defer cancel()
+	done := make(chan error, 1)
+	go func() {
+		defer func() {
+			if p := recover(); p != nil {
+				done <- fmt.Errorf("panic: %v", p)
+			}
+		}()
+		done <- omniwitness.Main(ctx, omniwitness.OperatorConfig{WitnessKeys: []note.Signer{u.W1.Signer, u.W1.CosigSigner}, WitnessVerifier: u.W1.CosigVerif},
+			inmemory.NewPersistence(), ln, &http.Client{Transport: &failTransport{}})
+	}()
+	deadline := time.Now().Add(60 * time.Second)
+	for time.Now().Before(deadline) {
+		select {
+		case err := <-done:
+			run.Report("main-does-not-start-on-shipped-config", fmt.Sprintf("omniwitness.Main over the embedded logs.yaml returned before serving anything: %v", err), map[string]any{"kind": "main-start"})
+			return
+		default:
+		}
+		resp, err := (&http.Client{Timeout: 2 * time.Second}).Get("http://" + ln.Addr().String() + "/witness/v0/logs")
+		if err == nil {
+			resp.Body.Close()
+			if resp.StatusCode == 200 {
+				run.Add("main_started_on_shipped_config", 1)
+				cancel()
+				select {
+				case <-done:
+				case <-time.After(30 * time.Second):
+					run.Report("main-does-not-stop", "omniwitness.Main did not return within 30 s of its context being cancelled", map[string]any{"kind": "main-start"})
+				}
+				return
+			}
+		}
+		time.Sleep(50 * time.Millisecond)
+	}
+	run.Report("main-not-serving-on-shipped-config", "omniwitness.Main over the embedded logs.yaml did not answer GET /witness/v0/logs with 200 within 60 s", map[string]any{"kind": "main-start"})
 }
